@@ -1,4 +1,5 @@
 import TonicModel.Basic.Utf8
+import TonicModel.Basic.MetaOps
 import TonicModel.Model.Metadata
 /-
 Model of the rest of the typed metadata API and of two places where a status' metadata changes
@@ -16,10 +17,10 @@ open Status (Variant St Code)
 
 /-! ### keys -/
 
-/-- `HeaderName::from_static`: accepts exactly the names that are already in stored form (table
-`HEADER_CHARS_H2`: no upper case); `none` = panic -/
+/-- `HeaderName::from_static`: accepts the names that are already in stored form (table
+`HEADER_CHARS_H2`: no upper case; see `MetaOps.staticNameChar`); `none` = panic -/
 def nameFromStatic (src : Bytes) : Option Bytes :=
-  if !src.isEmpty && src.all (fun b => HMap.headerChar b == some b) then some src else none
+  if MetaOps.staticName src then some src else none
 
 /-- `MetadataKey::<VE>::from_static`; `none` = panic -/
 def keyFromStatic (v : Variant) (enc : Enc) (src : Bytes) : Option Bytes :=
